@@ -80,25 +80,40 @@ def _one(rc: RuleCtx, name: str):
         res.violation("L1", mod, fi.name, pre[-1] if pre else fi.node, "the label list does not start with exactly one label 0",
                       str(seed), "[0]", construct="seed labels")
     # L1 range
-    ra = range_args(loop)
-    ok_range = False
-    if ra is not None and len(ra) == 2:
-        lo = fr.expr(ra[0], env)
-        hi = fr.expr(ra[1], env)
-        if isinstance(lo, Rat) and lo.is_const() == 1 and isinstance(hi, Rat) and hi.equals(sym("N")):
-            ok_range = True
-    if ok_range and isinstance(loop.target, ast.Name):
-        res.ok("L1", f"{fi.qualname}:range", "for i in range(1, len(points))")
+    # the positions visited: any header the loop binder understands (range, enumerate, zip of shifted slices, ...),
+    # re-centred so that `i` is the index of the point that is being labelled
+    from .common import bind_loop
+    b = bind_loop(ev, fr, loop, env)
+    if b is None:
+        raise AnalysisError(f"{fi.qualname}: loop header has no recognised shape")
+    delta = (C(1) - b.lo).is_const()
+    if delta is None:
+        raise AnalysisError(f"{fi.qualname}: the first visited position {b.lo} is not a constant")
+    ok_range = (b.hi + C(delta)).equals(sym("N"))
+    if ok_range:
+        res.ok("L1", f"{fi.qualname}:range", "the pass visits the points 1..n-1 once each, in order")
     else:
         res.violation("L1", mod, fi.name, loop, "the pass does not visit exactly the points 1..n-1 once each",
                       ast.unparse(loop.iter), "range(1, len(points))", construct="loop range")
         return
-    ivar = loop.target.id
+    i = ev.symbol("i!pos")
+    idx_atoms = b.idx.atoms()
+    if len(idx_atoms) != 1:
+        raise AnalysisError(f"{fi.qualname}: loop index is not a plain symbol")
+    ren = {idx_atoms[0].name: i - C(delta)}
+
+    def _rn(v):
+        if isinstance(v, Rat):
+            return v.subst(ren)
+        if isinstance(v, Vec):
+            return Vec([_rn(k) for k in v.items], v.kind)
+        return v
     # ---- loop body as a transfer function ------------------------------------------------
-    carried = [n for n in stored_names(ast.Module(body=loop.body, type_ignores=[])) if n in env and n != L]
+    tnames = [n.id for n in ast.walk(loop.target) if isinstance(n, ast.Name)]
+    carried = [n for n in stored_names(ast.Module(body=loop.body, type_ignores=[])) if n in env and n != L and n not in tnames]
     benv = dict(env)
-    i = ev.symbol(ivar)
-    benv[ivar] = i
+    for k_, v_ in b.bindings.items():
+        benv[k_] = _rn(v_)
     state = {}
     for n in carried:
         state[n] = ev.symbol(n)
